@@ -31,6 +31,135 @@ Proof.
   rewrite Hf, N.eqb_refl, Ha, Hd, Hi. cbn [app filter put_item]. now rewrite Ha, Hd, Hi.
 Qed.
 
+(* ================================================================== what os.walk finds under a renamed directory *)
+(* [content]'s fuel (the length of the entry list) is more than enough: any fuel >= the number of entries below d gives
+   the same tree; removing an entry that is not below d changes nothing; frename maps the sub-tree below p to the sub-tree
+   below q.  Hence content (w_fs w') q = content (w_fs w) p for every successful directory rename in a well-formed world. *)
+Definition below (x : bytes) (t : fs) : list fent := filter (fun e => under x (f_path e)) t.
+
+Lemma child_under x y : npath y -> is_child x y = true -> under x y = true.
+Proof.
+  intros Ny H. unfold is_child in H. apply andb_true_iff in H as [H _]. apply beqb_eq in H. subst x.
+  now apply under_dirname.
+Qed.
+
+Lemma filter_filter_implied {A} (f g : A -> bool) l :
+  (forall x, In x l -> f x = true -> g x = true) -> filter f (filter g l) = filter f l.
+Proof.
+  induction l as [|a l IH]; intros H; simpl; [reflexivity|].
+  assert (IH' : filter f (filter g l) = filter f l) by (apply IH; intros x Hx; apply H; now right).
+  destruct (g a) eqn:Eg; simpl.
+  - now rewrite IH'.
+  - destruct (f a) eqn:Ef; [|exact IH']. rewrite (H a (or_introl eq_refl) Ef) in Eg. discriminate.
+Qed.
+
+Section Fuel.
+  Variable t : fs.
+  Hypothesis Hnp : forall e, In e t -> npath (f_path e).
+
+  Lemma content_fuel_step : forall n x, length (below x t) <= n -> content_fuel (S n) t x = content_fuel n t x.
+  Proof.
+    induction n as [|n IH]; intros x Hb.
+    - (* nothing below x: no children *)
+      assert (Hnil : below x t = []) by (destruct (below x t); [reflexivity | simpl in Hb; lia]).
+      assert (Hno : forall e, In e t -> is_child x (f_path e) = false).
+      { intros e He. destruct (is_child x (f_path e)) eqn:E; [|reflexivity].
+        assert (Hin : In e (below x t)) by (apply filter_In; split; [exact He | apply child_under; auto]).
+        rewrite Hnil in Hin. destruct Hin. }
+      cbn [content_fuel]. rewrite !filter_none; [reflexivity | |]; intros e He; rewrite (Hno e He); reflexivity.
+    - cbn [content_fuel]. f_equal. apply map_ext_in. intros e He. apply filter_In in He as [He Hc].
+      apply andb_true_iff in Hc as [Hc _]. f_equal.
+      change (content_fuel (S n) t (f_path e) = content_fuel n t (f_path e)). apply IH.
+      assert (Hu : under x (f_path e) = true) by (apply child_under; auto).
+      assert (Hlt : length (below (f_path e) t) < length (below x t)).
+      { unfold below. apply (filter_length_lt _ _ t e); [| exact He | apply under_irrefl | exact Hu].
+        intros z Hz. eapply under_trans; eassumption. }
+      lia.
+  Qed.
+
+  Lemma content_fuel_enough x : forall n, length (below x t) <= n ->
+    content_fuel n t x = content_fuel (length (below x t)) t x.
+  Proof.
+    intros n Hn. replace n with ((n - length (below x t)) + length (below x t)) by lia.
+    induction (n - length (below x t)) as [|d IH]; [reflexivity|].
+    cbn [plus]. rewrite content_fuel_step by lia. exact IH.
+  Qed.
+End Fuel.
+
+(* removing an entry that is neither p nor below p does not change what lies below p *)
+Lemma content_fuel_fremove t q p : (forall e, In e t -> npath (f_path e)) -> under p q = false ->
+  forall n x, (x = p \/ under p x = true) ->
+  content_fuel n (fremove q t) x = content_fuel n t x.
+Proof.
+  intros Hnp Hq. induction n as [|n IH]; intros x Hx; [reflexivity|]. cbn [content_fuel].
+  assert (Hkeep : forall g : fent -> bool, forall e, In e t -> (is_child x (f_path e) && g e) = true ->
+                    negb (beqb q (f_path e)) = true).
+  { intros g e He H. apply andb_true_iff in H as [H _]. apply negb_true_iff, beqb_neq. intros E.
+    assert (Hu : under x q = true) by (rewrite E; apply child_under; auto).
+    assert (under p q = true); [|congruence].
+    destruct Hx as [->|Hx]; [exact Hu | eapply under_trans; eassumption]. }
+  unfold fremove at 2 3.
+  rewrite (filter_filter_implied (fun e => is_child x (f_path e) && f_dir e)) by (intros e He; apply (Hkeep f_dir e He)).
+  rewrite (filter_filter_implied (fun e => is_child x (f_path e) && negb (f_dir e)))
+    by (intros e He; apply (Hkeep (fun e => negb (f_dir e)) e He)).
+  f_equal. apply map_ext_in. intros e He. apply filter_In in He as [He Hc]. apply andb_true_iff in Hc as [Hc _].
+  f_equal. apply IH. right.
+  assert (Hu : under x (f_path e) = true) by (apply child_under; auto).
+  destruct Hx as [->|Hx]; [exact Hu | eapply under_trans; eassumption].
+Qed.
+
+Lemma below_fremove t q p : under p q = false -> below p (fremove q t) = below p t.
+Proof.
+  intros Hq. unfold below, fremove. apply filter_filter_implied. intros e _ Hu.
+  apply negb_true_iff, beqb_neq. intros E. rewrite <- E in Hu. congruence.
+Qed.
+
+Lemma flookup_fremove_other q p t : p <> q -> flookup p (fremove q t) = flookup p t.
+Proof.
+  intros Hne. unfold fremove. induction t as [|a l IH]; simpl; [reflexivity|].
+  destruct (beqb q (f_path a)) eqn:Eq; simpl.
+  - apply beqb_eq in Eq. destruct (beqb p (f_path a)) eqn:Ep; [apply beqb_eq in Ep; congruence | exact IH].
+  - destruct (beqb p (f_path a)); [reflexivity | exact IH].
+Qed.
+
+Lemma content_fremove t q p : (forall e, In e t -> npath (f_path e)) -> p <> q -> under p q = false ->
+  content (fremove q t) p = content t p.
+Proof.
+  intros Hnp Hne Hq. unfold content, fisdir. rewrite (flookup_fremove_other q p t Hne).
+  destruct (flookup p t) as [e|]; [|reflexivity]. destruct (f_dir e); [|reflexivity].
+  assert (Hnp' : forall e0, In e0 (fremove q t) -> npath (f_path e0)) by (intros e0 H0; apply Hnp; now apply fremove_in in H0).
+  rewrite (content_fuel_enough (fremove q t) Hnp' p (length (fremove q t))) by (unfold below; apply filter_length_le).
+  rewrite (content_fuel_enough t Hnp p (length t)) by (unfold below; apply filter_length_le).
+  rewrite (below_fremove t q p Hq). apply (content_fuel_fremove t q p Hnp Hq). now left.
+Qed.
+
+(* every successful rename of a directory in a well-formed world *)
+Theorem rename_dir_content w p q w' : wf_fs w -> npath p -> npath q ->
+  apply_op w (Rename p q) = Some w' -> fisdir p (w_fs w) = true ->
+  content (w_fs w') q = content (w_fs w) p.
+Proof.
+  intros W Np Nq Ha Fp.
+  destruct (rename_inv w p q w' W Np Nq Ha) as (ep & t1 & Elp & Hne & Hupq & Edq & -> & Hbelow & Hq1). cbn [w_fs].
+  destruct (npath_parts p Np) as (Ep & [Hdp Hsp] & Hnp & _).
+  destruct (npath_parts q Nq) as (Eq & [Hdq Hsq] & Hnq & _).
+  assert (Hwfp : forall e, In e (w_fs w) -> wf_path (f_path e)).
+  { intros e He. destruct (wf_np w W e He) as (d0 & n0 & E0 & [_ Hs0] & Hn0). exists d0, n0. auto. }
+  assert (Hgoal : forall t0, (forall e, In e t0 -> In e (w_fs w) /\ f_path e <> q \/ In e (w_fs w) /\ flookup q (w_fs w) = None) ->
+            fisdir p t0 = true -> content (frename p q t0) q = content t0 p).
+  { intros t0 Hsub Fp0. rewrite Ep, Eq. apply content_rename; try assumption.
+    - intros e He. destruct (Hsub e He) as [[H _]|[H _]]; now apply Hwfp.
+    - rewrite <- Eq. intros e He. destruct (Hsub e He) as [[_ H]|[H Hn]];
+        [apply beqb_neq; congruence | now apply (ContractProofs.flookup_none q (w_fs w) Hn)].
+    - rewrite <- Eq. intros e He. apply Hbelow. destruct (Hsub e He) as [[H _]|[H _]]; exact H.
+    - now rewrite <- Ep. }
+  destruct Hq1 as [[Elq ->]|(v & Elq & -> & _)].
+  - apply Hgoal; [|exact Fp]. intros e He. right. auto.
+  - rewrite Hgoal.
+    + apply content_fremove; [apply (wf_np w W) | exact Hne | exact Hupq].
+    + intros e He. apply fremove_in in He. left. exact He.
+    + unfold fisdir. rewrite flookup_fremove_other by exact Hne. exact Fp.
+Qed.
+
 Section Replace.
   Variable C : cfg.
   Variable full : bool.
@@ -40,11 +169,10 @@ Section Replace.
     apply_op w (Rename p q) = Some w' ->
     flookup p (w_fs w) = Some ep -> f_dir ep = true -> scope C p -> p <> c_root C -> scope C q -> q <> c_root C ->
     flookup q (w_fs w) = Some v -> f_dir v = true ->
-    content (w_fs w') q = content (w_fs w) p ->
     exists evs, deliver_one C full w k r (Rename p q) = Some evs /\
       collapse evs = collapse (contract (c_recursive C) full (c_root C) (w_fs w) (Rename p q)).
   Proof.
-    intros S Np Nq Hrec Hmask Ha Elp Dep Sp Hpr Sq Hqr Elq Dv Hct. destruct S as [W Hr I Cv Hq Hpd].
+    intros S Np Nq Hrec Hmask Ha Elp Dep Sp Hpr Sq Hqr Elq Dv. destruct S as [W Hr I Cv Hq Hpd].
     destruct (rename_inv w p q w' W Np Nq Ha) as (ep' & t1 & Elp' & Hne & Hupq & Edq & Hw' & Hbelow & Hq1).
     assert (ep' = ep) by congruence. subst ep'.
     destruct (flookup_some _ _ _ Elp) as [Hep Eep]. destruct (flookup_some _ _ _ Elq) as [Hv Evp].
@@ -53,6 +181,7 @@ Section Replace.
     assert (Fq : fisdir q (w_fs w) = true) by (unfold fisdir; now rewrite Elq).
     assert (Fp : fisdir p (w_fs w) = true) by (unfold fisdir; now rewrite Elp).
     assert (Iv : ino_of (w_fs w) q = f_ino v) by (unfold ino_of; now rewrite Elq).
+    assert (Hct := rename_dir_content w p q w' W Np Nq Ha Fp).
     set (kf := kdrained (kernel_op k (w_fs w) (Rename p q))).
     destruct (rename_dir_rekey C w k r p q ep (w_fs w') kf W Hr I Cv Hpd Np Nq Hrec Elp Dep Sp Hpr Sq Hqr Hne Hupq Hbelow Edq)
       as (kwp & kwq & kwe & r'' & evs0 & Cwp & Cwq & Cep & Hrd1 & Hmv & Hpd2 & F & Pf & T & Hsafe0 & Lp2 & Kw2).
@@ -318,3 +447,86 @@ Section ReplaceUnwatched.
       + rewrite knotify_miss by exact Hcq. rewrite kgone_miss by exact Hvw. eexists; split; reflexivity.
   Qed.
 End ReplaceUnwatched.
+
+(* ================================================================== the same from well-formedness of the world alone *)
+Lemma wf_fs_tree w p : wf_fs w -> wf_tree (content (w_fs w) p) = true.
+Proof.
+  intros W. apply content_wf. intros e He. destruct (wf_np w W e He) as (d0 & n0 & E0 & [_ Hs0] & Hn0). exists d0, n0. auto.
+Qed.
+
+(* a directory renamed onto a free name: inside the scope, out of it, into it *)
+Theorem contract_rename_dir_wf C full w k r p q w' :
+  k_queue k = [] -> pend r = None -> wf_fs w -> npath p -> npath q ->
+  cover C r k (w_fs w) (dirname p) -> cover C r k (w_fs w) (dirname q) ->
+  fisdir p (w_fs w) = true -> fisdir q (w_fs w) = false ->
+  apply_op w (Rename p q) = Some w' ->
+  delivers C full w k r (Rename p q).
+Proof.
+  intros Hq Hpd W Np Nq Hcp Hcq Fp Fq Ha.
+  assert (Hct := rename_dir_content w p q w' W Np Nq Ha Fp). assert (Hwf := wf_fs_tree w p W). clear W.
+  destruct Np as (dp & np & -> & [Hdp Hsp] & Hnp). destruct Nq as (dq & nq & -> & [Hdq Hsq] & Hnq).
+  rewrite dirname_child in Hcp, Hcq by assumption.
+  eapply contract_rename_dir_tree; eassumption.
+Qed.
+
+(* a directory renamed over an empty directory that has no watch of its own *)
+Theorem contract_rename_dir_over_unwatched_wf C full w k r p q w' :
+  k_queue k = [] -> pend r = None -> wf_fs w -> npath p -> npath q ->
+  cover C r k (w_fs w) (dirname p) -> cover C r k (w_fs w) (dirname q) ->
+  fisdir p (w_fs w) = true -> fisdir q (w_fs w) = true ->
+  watch_of_ino k (ino_of (w_fs w) q) = None ->
+  (c_recursive C = false \/ in_scope (c_recursive C) (c_root C) q = false) ->
+  apply_op w (Rename p q) = Some w' ->
+  delivers C full w k r (Rename p q).
+Proof.
+  intros Hq Hpd W Np Nq Hcp Hcq Fp Fq Hvw Hv Ha.
+  assert (Hct := rename_dir_content w p q w' W Np Nq Ha Fp). assert (Hwf := wf_fs_tree w p W). clear W.
+  destruct Np as (dp & np & -> & [Hdp Hsp] & Hnp). destruct Nq as (dq & nq & -> & [Hdq Hsq] & Hnq).
+  rewrite dirname_child in Hcp, Hcq by assumption.
+  eapply contract_rename_dir_over_unwatched; eassumption.
+Qed.
+
+(* ---- a concrete instance for the unwatched case: /s/R/d moved over the empty directory /s/O/z outside the scope *)
+Definition rp_z : bytes := sub pO 122.            (* /s/O/z    empty directory *)
+Definition rp_world2 : world :=
+  {| w_fs := w_fs rp_world ++ [ {| f_path := rp_z; f_ino := 6; f_dir := true |} ]; w_next_ino := 7 |}.
+
+Lemma rp_world2_wf : wf_fs rp_world2.
+Proof.
+  assert (GS : gpath [47;115]%N) by (split; [discriminate | reflexivity]).
+  assert (NR : npath pR) by (apply (npath_sub [47;115]%N 82 GS); reflexivity).
+  assert (NO : npath pO) by (apply (npath_sub [47;115]%N 79 GS); reflexivity).
+  assert (ND : npath rp_d) by (apply npath_sub; [now apply npath_gpath | reflexivity]).
+  assert (NF : npath rp_df) by (apply npath_sub; [now apply npath_gpath | reflexivity]).
+  assert (NE : npath rp_e) by (apply npath_sub; [now apply npath_gpath | reflexivity]).
+  assert (NZ : npath rp_z) by (apply npath_sub; [now apply npath_gpath | reflexivity]).
+  constructor; cbn [rp_world2 rp_world w_fs w_next_ino map f_path f_ino app]; [| | | | |lia].
+  - repeat constructor; cbn; intuition discriminate.
+  - repeat constructor; cbn; intuition discriminate.
+  - intros e [<-|[<-|[<-|[<-|[<-|[<-|[]]]]]]]; cbn; lia.
+  - intros e [<-|[<-|[<-|[<-|[<-|[<-|[]]]]]]]; assumption.
+  - intros e d [<-|[<-|[<-|[<-|[<-|[<-|[]]]]]]] [<-|[<-|[<-|[<-|[<-|[<-|[]]]]]]] Hu; vm_compute in Hu; try discriminate;
+      first [ eexists; split; [left; reflexivity | split; vm_compute; reflexivity]
+            | eexists; split; [right; left; reflexivity | split; vm_compute; reflexivity]
+            | eexists; split; [right; right; left; reflexivity | split; vm_compute; reflexivity] ].
+Qed.
+
+Lemma replace_unwatched_nonvacuous :
+  exists r k w',
+    construct (cfgx true true) kinit (w_fs rp_world2) = Some (r, k) /\ k_queue k = [] /\ pend r = None /\
+    wf_fs rp_world2 /\ npath rp_d /\ npath rp_z /\
+    cover (cfgx true true) r k (w_fs rp_world2) (dirname rp_d) /\ cover (cfgx true true) r k (w_fs rp_world2) (dirname rp_z) /\
+    fisdir rp_d (w_fs rp_world2) = true /\ fisdir rp_z (w_fs rp_world2) = true /\
+    watch_of_ino k (ino_of (w_fs rp_world2) rp_z) = None /\ in_scope true pR rp_z = false /\
+    apply_op rp_world2 (Rename rp_d rp_z) = Some w' /\
+    deliver_one (cfgx true true) false rp_world2 k r (Rename rp_d rp_z) = Some [mk DirDeleted rp_d []; parent_modified rp_d] /\
+    contract true false pR (w_fs rp_world2) (Rename rp_d rp_z) = [mk DirDeleted rp_d []; parent_modified rp_d].
+Proof.
+  assert (GR : gpath pR) by (split; [discriminate | reflexivity]).
+  assert (GO : gpath pO) by (split; [discriminate | reflexivity]).
+  eexists; eexists; eexists. split; [vm_compute; reflexivity|]. split; [reflexivity|]. split; [reflexivity|].
+  split; [exact rp_world2_wf|]. split; [apply npath_sub; [exact GR | reflexivity]|].
+  split; [apply npath_sub; [exact GO | reflexivity]|].
+  split; [vm_compute; eexists; repeat split|]. split; [vm_compute; reflexivity|].
+  repeat split; vm_compute; reflexivity.
+Qed.
